@@ -130,6 +130,17 @@ class C04(Property):
             opts = gen.options(p, descr="Ld", fallback_to_usage=rng.random() < 0.3, version="1" if rng.random() < 0.3 else None)
         return opts
 
+    @staticmethod
+    def styled_helps(rng, opts):
+        """Help texts built from several styled fragments, a line break inside a fragment that is not the last, multi-byte
+        characters right after it (what Doc::first_line / to_completion and the short form of --help walk over)."""
+        for x in gen.walk(opts):
+            if x["k"] in ("flag", "arg") and rng.random() < 0.5:
+                a = rng.choice(["a\n\u00e9", "\n\u00e9", "first line\nsecond \u65e5\u672c", "x\n\n\u00e9t\u00e9", "plain"])
+                b = rng.choice(["ab", "\u00e9", "lit\nmore", "z"])
+                x["n"]["help"] = [("text", a), (rng.choice(["literal", "emphasis", "invalid"]), b)] + \
+                    ([("text", " tail \u00fc")] if rng.random() < 0.5 else [])
+
     def generate(self, rng, tier, n):
         # the three renderers on explicit documents (deeply nested blocks, random balanced/unbalanced lists): no panic
         from .C13 import C13
@@ -142,6 +153,8 @@ class C04(Property):
         k = 0
         while len(cases) < n:
             opts = self.gen_def(rng)
+            if rng.random() < 0.2:
+                self.styled_helps(rng, opts)
             cases.append(Case("g%di" % k, opts, [], mode="invariant", tags={"role": "inv", "group": "g%d" % k}))
             for j in range(6):
                 gid = "g%d" % k
@@ -183,6 +196,17 @@ class C04(Property):
                                       tags={"role": "history", "group": gid}))
             k += 1
         return cases
+
+    def execute(self, cases):
+        from .. import infra
+        lines = [c.line() for c in cases]
+        # the completion steps of every history, through the model of the autocomplete build (Model/CompEval.v)
+        extra = []
+        for c in cases:
+            if c.tags.get("role") == "history" and c.argv and c.opts is not None:
+                for rev in (0, 1, 7, 8, 9):
+                    extra.append(gen.case_line("%s_r%d" % (c.id, rev), c.opts, c.argv, c.env, c.name, "comp %d" % rev, c.feat, c.unset))
+        return infra.run_model(lines + extra), infra.run_driver(lines)
 
     def judge(self, cases, model, impl):
         out, nontrivial, dist = [], [], {}
@@ -240,6 +264,22 @@ class C04(Property):
                 parts = "\t".join(ic[1:]).split("\t|\t")
                 nontrivial.append(c.line())
                 half = len(parts) // 2
+                # the completion steps against the model: the same text, byte for byte
+                for st in parts[:half]:
+                    head = st.split("\t")
+                    if head[0].startswith("rev") and " " in head[0] and c.argv:
+                        rv, cls = head[0].split(" ", 1)
+                        mc = model.get("%s_r%s" % (c.id, rv[3:]))
+                        if mc is None:
+                            continue
+                        dist["completion steps compared with the model"] = dist.get("completion steps compared with the model", 0) + 1
+                        ok = (mc[0] == "COMP" and cls == "COMP" and mc[1:2] == head[1:2]) or (mc[0] != "COMP" and cls == mc[0])
+                        if cls == "PANIC":
+                            continue            # reported below
+                        if not ok:
+                            out.append(Finding("disagree", c, "completion at revision %s: model %r vs implementation %r"
+                                               % (rv[3:], mc[:2], [cls] + head[1:2])))
+                            break
                 for st in parts:
                     if "PANIC" in st.split("\t")[0]:
                         what = gen.unhx(st.split("\t")[1]).decode("utf-8", "replace") if "\t" in st else ""
